@@ -40,11 +40,13 @@ func c05Scripts(long bool) func(g *Gen, id string, kind byte) []Action {
 		if long && rng.Chance(9, 10) {
 			return nil
 		}
-		switch rng.Intn(8) {
+		switch rng.Intn(9) {
 		case 0:
 			return []Action{{Op: "obs"}} // no Next
 		case 1:
 			return []Action{{Op: "obs"}, {Op: "next"}, {Op: "obs"}, {Op: "next"}, {Op: "obs"}}
+		case 2:
+			return []Action{{Op: "obs"}, {Op: "nextrecover"}, {Op: "obs"}} // recovers panics of the rest of the chain
 		}
 		return nil // default: obs, next, obs
 	}
@@ -53,16 +55,32 @@ func c05Scripts(long bool) func(g *Gen, id string, kind byte) []Action {
 func genC05(mode string) func(rng *Rng, sc *Scenario) {
 	return func(rng *Rng, sc *Scenario) {
 		g := NewGen(rng, sc)
-		long := mode == "long" || mode == "overlimit"
+		long := mode == "long" || mode == "overlimit" || mode == "atlimit"
 		cfg := ShapeCfg{
 			MaxRoutes: 5, MaxGlobals: 3, GroupChance: [2]int{1, 3},
 			CacheChance: [2]int{1, 4}, Caps: []int{1, 2, 1000},
 			FallbackOpts: true, LongChains: long, Scripts: c05Scripts(long),
 		}
-		if mode == "overlimit" {
+		if mode == "overlimit" || mode == "atlimit" {
 			cfg.MaxRoutes, cfg.MaxGlobals, cfg.GroupChance = 2, 4, [2]int{0, 1}
 		}
+		if mode == "atlimit" {
+			cfg.MaxGlobals = 0
+		}
 		g.GenShape(cfg)
+		if mode == "atlimit" {
+			// registration must refuse 63 or more group + route middleware ("too many handlers"): try 61..64
+			want := rng.Range(61, 64)
+			for i := range sc.Program {
+				op := &sc.Program[i]
+				if op.Op == "route" && op.Via != "any" {
+					for len(op.MW)+len(op.LaterUse) < want {
+						op.MW = append(op.MW, g.newID('r', &cfg))
+					}
+					break
+				}
+			}
+		}
 		if mode == "overlimit" {
 			// the registration limit counts group + route middleware only: fill a route up to it and let global middleware push the total over 63
 			for i := range sc.Program {
@@ -124,6 +142,14 @@ func genC05(mode string) func(rng *Rng, sc *Scenario) {
 							s = []Action{{Op: "obs"}, ab, {Op: "next"}, {Op: "next"}, {Op: "obs"}}
 						}
 						rq.Over = map[string][]Action{id: s}
+						if rng.Chance(1, 4) {
+							// the connection fails at the instant the aborting handler writes
+							f := WFault{At: rng.Intn(2), N: rng.Intn(3)}
+							if rng.Chance(1, 2) {
+								f.Err = "reset"
+							}
+							rq.WFaults = []WFault{f}
+						}
 					}
 				}
 				cl.Reqs = append(cl.Reqs, rq)
@@ -222,6 +248,12 @@ func checkC05(sc *Scenario) *CheckOut {
 		if chainLen > 63 {
 			sig = "chain>63" // global middleware is not counted by the registration-time handler limit
 			out.Faults["chain-over-63"]++
+			if chainLen-len(res.W.globals) > 63 {
+				// not the known finding: the documented limit itself (at most 62 group + route middleware) was not enforced
+				out.Viol = append(out.Viol, Violation{"C05", "limit-not-enforced",
+					fmt.Sprintf("client %d request %d (%s %s): registration accepted a chain of %d handlers without counting global middleware; the documented handler limit refuses 63 or more group + route middleware", rec.Task, rec.Idx, rec.Method, rec.Path, chainLen-len(res.W.globals)), ""})
+				break
+			}
 		} else if chainLen >= 33 {
 			out.Faults["chain-33-or-longer"]++
 		}
@@ -346,9 +378,10 @@ func compactTrace(t []TItem) string {
 
 func init() {
 	rule := "a request is non-trivial when one of its handlers aborted"
-	register(&Profile{Prop: "C05", Name: "single", Quick: 10000, Thorough: 600000, Gen: genC05("single"), Check: checkC05, Rule: rule, Faulty: true})
-	register(&Profile{Prop: "C05", Name: "concurrent", Quick: 6000, Thorough: 400000, Gen: genC05("concurrent"), Check: checkC05, Rule: rule, Faulty: true})
-	register(&Profile{Prop: "C05", Name: "long", Quick: 2000, Thorough: 100000, Gen: genC05("long"), Check: checkC05, Rule: rule, Faulty: true})
-	register(&Profile{Prop: "C05", Name: "redispatch-abort", Quick: 2000, Thorough: 100000, Gen: genC05Redispatch, Check: checkC05, Rule: rule, Faulty: true})
-	register(&Profile{Prop: "C05", Name: "overlimit", Quick: 300, Thorough: 20000, Gen: genC05("overlimit"), Check: checkC05, Rule: rule, Faulty: true})
+	register(&Profile{Prop: "C05", Name: "single", Quick: 30000, Thorough: 600000, Gen: genC05("single"), Check: checkC05, Rule: rule, Faulty: true})
+	register(&Profile{Prop: "C05", Name: "concurrent", Quick: 18000, Thorough: 400000, Gen: genC05("concurrent"), Check: checkC05, Rule: rule, Faulty: true})
+	register(&Profile{Prop: "C05", Name: "long", Quick: 6000, Thorough: 100000, Gen: genC05("long"), Check: checkC05, Rule: rule, Faulty: true})
+	register(&Profile{Prop: "C05", Name: "redispatch-abort", Quick: 6000, Thorough: 100000, Gen: genC05Redispatch, Check: checkC05, Rule: rule, Faulty: true})
+	register(&Profile{Prop: "C05", Name: "atlimit", Quick: 600, Thorough: 20000, Gen: genC05("atlimit"), Check: checkC05, Rule: rule, Faulty: true})
+	register(&Profile{Prop: "C05", Name: "overlimit", Quick: 900, Thorough: 20000, Gen: genC05("overlimit"), Check: checkC05, Rule: rule, Faulty: true})
 }
